@@ -211,6 +211,28 @@ def fixed_source(prog):
     return lay.text
 
 
+def joined_source(prog):
+    """free-form rendering in which every simple statement is joined with the
+    following simple unlabelled statement by ';' (non-overlapping pairs); None
+    if nothing can be joined.  fparser1 prints the statements separately."""
+    ds = corpus.depths(prog)
+    stmts = [(s, d) for s, d in zip(prog, ds) if s.kind != "program_anon"]
+    lines = []
+    i = 0
+    joined = 0
+    while i < len(stmts):
+        s, d = stmts[i]
+        ind = " " * (1 + 2 * d)
+        if i + 1 < len(stmts) and s.role == "simple" and stmts[i + 1][0].role == "simple" and not stmts[i + 1][0].label and not s.text.lower().startswith(("format", "if ", "if(", "where", "forall", "data", "implicit", "use", "include")) and not stmts[i + 1][0].text.lower().startswith(("format", "data", "implicit", "use", "include", "entry")):
+            lines.append(ind + s.line() + "; " + stmts[i + 1][0].line())
+            joined += 1
+            i += 2
+        else:
+            lines.append(ind + s.line())
+            i += 1
+    return "\n".join(lines) + "\n" if joined else None
+
+
 def check_case(res, cid, prog, tag):
     if not is_f90(prog):
         return
@@ -222,6 +244,9 @@ def check_case(res, cid, prog, tag):
     srcs = [("free", free, True)]
     if all(len(s.line()) < 50 for s in prog):
         srcs.append(("fixed", fixed_source(prog), False))
+    js = joined_source(prog)
+    if js is not None:
+        srcs.append(("free-joined", js, True))
     for form, src, isfree in srcs:
         for analyze in (False, True):
             for ic in (True, False) if not analyze else (True,):
